@@ -100,6 +100,14 @@ class Interp:
             def __init__(self, label):
                 self.label = label
 
+        falsy = self.cfg.get('falsy_handles')
+        if falsy == 'len':              # container-like handles, empty
+            RecHandle.__len__ = lambda self: 0
+            PreHandle.__len__ = lambda self: 0
+        elif falsy == 'bool':
+            RecHandle.__bool__ = lambda self: False
+            PreHandle.__bool__ = lambda self: False
+
         self.RecHandle, self.PreHandle = RecHandle, PreHandle
         self.map = d.ResourceMap()
         self.pre = {}               # key -> object
@@ -489,6 +497,7 @@ def generate(prop, run_seed, tier='quick', tolerate=frozenset()):
     cfg = {'policy': crng.choice(['fifo', 'lifo', 'reshuffle', 'rot']),
            'tree': tree, 'rules': rules, 'pre': pre,
            'wrong_ctor_root': crng.random() < .15,
+           'falsy_handles': crng.choice([None, None, None, 'len', 'bool']),
            'ctor': {'nest': crng.choice([None, True, False]),
                     'trim': crng.choice([None, True, False])}}
     ops = []
